@@ -1,4 +1,5 @@
 import Driver.CodecMode
+import Driver.StoreMode
 /-! Line-protocol driver: `driver <mode>` reads operation lines on stdin, prints one line per op. -/
 open Driver
 
@@ -13,9 +14,21 @@ partial def loopCodec (h : IO.FS.Stream) (out : IO.FS.Stream) (st : CodecMode.St
     out.putStrLn o
     loopCodec h out st'
 
+partial def loopStore (h : IO.FS.Stream) (out : IO.FS.Stream) (st : StoreMode.St) : IO Unit := do
+  let line ← h.getLine
+  if line.isEmpty then return ()
+  let l := line.trimAscii.toString
+  if l.isEmpty || l.startsWith "#" then
+    loopStore h out st
+  else
+    let (st', o) := StoreMode.step st l
+    out.putStrLn o
+    loopStore h out st'
+
 def main (args : List String) : IO UInt32 := do
   let stdin ← IO.getStdin
   let stdout ← IO.getStdout
   match args with
   | ["codec"] => loopCodec stdin stdout {}; return 0
+  | ["store"] => loopStore stdin stdout {}; return 0
   | _ => IO.eprintln "usage: driver codec|store|…"; return 2
